@@ -454,9 +454,12 @@ class Runner:
                 if sv != cf:
                     raise HarnessError("cross-validation: clause %s symbolic=%s concrete=%s (%s) inputs %r"
                                        % (cid, sv, cf, self.q.qid, values))
-        if len(res.samples) < 2:
-            res.samples.append({"query": self.q.qid, "inputs": values, "decisions": len(eng.decisions),
-                                "outcome": out[0] if out[0] == "ok" else out[1], "notes": ctx.notes})
+        smp = {"query": self.q.qid, "inputs": values, "decisions": len(eng.decisions),
+               "outcome": out[0] if out[0] == "ok" else out[1], "notes": ctx.notes}
+        if len(res.samples) < 1:
+            res.samples.append(smp)
+        else:
+            res.samples[1:2] = [smp]     # first and most recent path of the task
 
         # ---- confirm violations by concrete replay
         for cid, disc, m in failing:
